@@ -10,7 +10,10 @@ RULE = ("values: SHA-256/512, 3 HMACs (+crypto_auth), BLAKE2b (unkeyed-32, keyed
         "(quick: every length to 700/1400 then the 5 lengths around every block boundary) x 3 context lengths; out-of-range lengths refused; "
         "verify functions: correct tag accepted, each single-bit variant rejected. Crafted Poly1305: r in {0..5, clamp-max, 2^123} x s in "
         "{0, 2^128-1, 5} x every sequence of 1..4 blocks over 7 crafted blocks x partial final block of every length 0..15 x fill {00,ff}, and "
-        "homogeneous runs of 0..40 blocks. Chunking: explicit state graph per streaming API (node = canonical state image at offset t, "
+        "homogeneous runs of 0..40 blocks; Poly1305 cases built backwards with big integers (ref/gen_poly_cases.py): for 8 keys x ~790 target values "
+        "of the accumulator before the final reduction (every boundary combination of the 44/44/42- and 26-bit limb cuts, 0..23, p-24..p-1) x "
+        "prefixes of 0/1/4/7/12 blocks a final block is solved so the accumulator is exactly the target, and every clamped r whose r^2 or r^4 "
+        "mod 2^130-5 is < 2^26 or within 2^26 of the modulus (exhaustive search, harness/poly_keys.h) x every length 0..99 (+7). Chunking: explicit state graph per streaming API (node = canonical state image at offset t, "
         "edges = update(M[t:u]) for all t<=u incl. empty and NULL updates, final() checked at every node) = ALL chunkings of an "
         "N-byte message (N = 3 blocks + 9); plus direct replays of every <=2-cut chunking on fresh states. One process per backend cfg.")
 
@@ -31,8 +34,21 @@ def prepare(tier):
     pass
 
 
+def poly_cases():
+    """(re)generate the backward-built Poly1305 cases; cheap (seconds), depends on VERIF_SEED and harness/poly_keys.h"""
+    import subprocess, sys
+    out = os.path.join(common.VERIF, "build", "ref", "poly_cases-%s.bin" % (os.environ.get("VERIF_SEED", "1") or "1"))
+    os.makedirs(os.path.dirname(out), exist_ok=True)
+    gen = os.path.join(common.VERIF, "ref", "gen_poly_cases.py"); keys = os.path.join(common.VERIF, "harness", "poly_keys.h")
+    if not os.path.exists(out) or any(os.path.getmtime(s) > os.path.getmtime(out) for s in (gen, keys)):
+        subprocess.check_call([sys.executable, gen, out + ".tmp"], stdout=subprocess.DEVNULL); os.replace(out + ".tmp", out)
+    os.environ["VERIF_POLY_CASES"] = out
+    return out
+
+
 def main(tier):
     ref = os.path.join(common.VERIF, "ref")
+    poly_cases()
     common.simple_check("C04", tier, "model_checking", ["c04.c", os.path.join(ref, "ref_hash.c"), os.path.join(ref, "ref_stream.c")],
                         VARIANTS, RULE,
                         ["contents limited to the pattern alphabet and the crafted Poly1305 families",
@@ -40,5 +56,6 @@ def main(tier):
                         configs=configs.hashes,
                         extra_cov=lambda r: {"states": r.stat("states"), "transitions": r.stat("transitions"),
                                              "traces_validated_against_impl": r.stat("replays"),
+                                             "poly1305_cases_built_backwards": r.stat("poly_cases_built_backwards"),
                                              "path_dependent_state_bytes_poisoned": r.stat("masked_bytes"),
                                              "backend_flags": sorted(set(r.infos))})
